@@ -64,314 +64,389 @@ theorem prevSibling_lt (h : d.WF) (c : NumCfg) (src : Nat) :
       · have := ih s m (by omega) hm
         omega
 
-theorem prevAny_lt (h : d.WF) (c : NumCfg) (src : Nat) :
-    ∀ (f pos m : Nat), pos < d.size → prevAny d c src f pos = .ret (some m) → m < pos := by
+theorem Doc.WF.prevSib_pos (h : d.WF) {n s : Nat} (hn : n < d.size) (hp : d.prevSib n = some s) : 0 < s := by
+  obtain ⟨_, _, h0, hall, _⟩ := h
+  cases n with
+  | zero => rw [h0] at hp; cases hp
+  | succ k =>
+    have := (hall (k + 1) hn (by omega)).2.2.2
+    rw [hp] at this
+    have h2 : 0 < s ∧ s < k + 1 := by simpa using this
+    exact h2.1
+
+theorem Doc.WF.lastChild_gt (h : d.WF) {n c : Nat} (hn : n < d.size) (hc : d.lastChild n = some c) : n < c ∧ c < d.size := by
+  have := h.2.2.2.2 n hn
+  rw [hc] at this
+  simpa using this
+
+theorem deepestLast_ge (h : d.WF) : ∀ (f s : Nat), s < d.size → s ≤ d.deepestLast f s ∧ d.deepestLast f s < d.size := by
   intro f
   induction f with
-  | zero => intro pos m _ hm; simp [prevAny] at hm
+  | zero => intro s hs; simp [Doc.deepestLast, hs]
   | succ f ih =>
-    intro pos m hpos hm
-    simp only [prevAny] at hm
-    cases hs : d.prevSib pos with
-    | none =>
-      simp only [hs] at hm
-      cases hp : d.parent pos with
+    intro s hs
+    simp only [Doc.deepestLast]
+    cases hc : d.lastChild s with
+    | none => simp [hs]
+    | some c =>
+      have := h.lastChild_gt hs hc
+      have := ih c this.2
+      simp only
+      omega
+
+theorem deepestLast_leaf (h : d.WF) : ∀ (f s : Nat), s < d.size → d.size ≤ s + f →
+    d.lastChild (d.deepestLast f s) = none := by
+  intro f
+  induction f with
+  | zero => intro s hs hf; omega
+  | succ f ih =>
+    intro s hs hf
+    simp only [Doc.deepestLast]
+    cases hc : d.lastChild s with
+    | none => simpa using hc
+    | some c =>
+      have := h.lastChild_gt hs hc
+      exact ih c this.2 (by omega)
+
+/-! ## `level="any"` -/
+
+def lastBeforeF (f g : Nat → Bool) : Nat → Option Nat
+  | 0 => none
+  | m + 1 => if f m then none else if g m then some m else lastBeforeF f g m
+
+/-- scanning down from `n`: stop at the first `f`, count the `g` -/
+theorem lastBeforeF_succ (f g : Nat → Bool) (m : Nat) :
+    lastBeforeF f g (m + 1) = if f m then none else if g m then some m else lastBeforeF f g m := rfl
+
+
+/-- scanning down from `n - 1`: stop at the first `f`, count the `g` -/
+def cntBelow (f g : Nat → Bool) : Nat → Nat
+  | 0 => 0
+  | m + 1 => if f m then 0 else (if g m then 1 else 0) + cntBelow f g m
+
+theorem cntBelow_succ (f g : Nat → Bool) (m : Nat) :
+    cntBelow f g (m + 1) = if f m then 0 else (if g m then 1 else 0) + cntBelow f g m := rfl
+
+theorem lastBeforeF_cnt (f g : Nat → Bool) : ∀ (n : Nat),
+    (lastBeforeF f g n = none → cntBelow f g n = 0) ∧
+    (∀ m, lastBeforeF f g n = some m → m < n ∧ g m = true ∧ cntBelow f g n = 1 + cntBelow f g m) := by
+  intro n
+  induction n with
+  | zero => exact ⟨fun _ => rfl, fun m h => by simp [lastBeforeF] at h⟩
+  | succ k ih =>
+    rw [lastBeforeF_succ, cntBelow_succ]
+    by_cases hf : f k = true
+    · simp [hf]
+    · by_cases hg : g k = true
+      · simp only [hf, hg, Bool.false_eq_true, if_false, if_true]
+        refine ⟨(by intro h; cases h), ?_⟩
+        intro m hm
+        simp only [Option.some.injEq] at hm
+        subst hm
+        exact ⟨by omega, hg, rfl⟩
+      · simp only [hf, hg, Bool.false_eq_true, if_false, Nat.zero_add]
+        refine ⟨ih.1, ?_⟩
+        intro m hm
+        have := ih.2 m hm
+        exact ⟨by omega, this.2.1, this.2.2⟩
+
+/-- the backward walk of `getPreviousNode` (`any`) visits the document-order predecessors one by one, testing
+`from` and then `count` on each -/
+theorem prevAny_eq (h : d.WF) (c : NumCfg) (src : Nat) :
+    ∀ (fuel pos : Nat), pos < d.size → pos < fuel →
+      prevAny d c src fuel pos = lastBeforeF c.fromMatches (c.countAt src) pos := by
+  intro fuel
+  induction fuel with
+  | zero => intro pos _ h2; omega
+  | succ f ih =>
+    intro pos hp hfu
+    simp only [prevAny]
+    cases pos with
+    | zero => rw [h.2.2.1, h.2.1]; rfl
+    | succ k =>
+      rw [lastBeforeF_succ]
+      have hnext : ∀ (o : Option Nat), o = some k →
+          (match o with
+            | none => none
+            | some next =>
+              if c.fromMatches next = true then none
+              else if c.countAt src next = true then some next else prevAny d c src f next) =
+          (if c.fromMatches k = true then none else if c.countAt src k = true then some k
+            else lastBeforeF c.fromMatches (c.countAt src) k) := by
+        intro o ho
+        subst ho
+        simp only
+        split
+        · rfl
+        · split
+          · rfl
+          · exact ih k (by omega) (by omega)
+      cases hs : d.prevSib (k + 1) with
+      | none => exact hnext (d.parent (k + 1)) (by rw [h.parent_eq hp (by omega) hs]; rfl)
+      | some s => exact hnext (some (d.deepestLast d.size s)) (by rw [h.dive_eq hp hs]; rfl)
+
+theorem findPOAS_below (h : d.WF) (c : NumCfg) (src : Nat) :
+    ∀ (fuel pos : Nat), pos < src → pos < d.size → pos < fuel →
+      findPrecedingOrAncestorOrSelf d c src fuel (some pos) = lastBeforeF c.fromMatches (c.countAt src) (pos + 1) := by
+  intro fuel
+  induction fuel with
+  | zero => intro pos _ _ h2; omega
+  | succ f ih =>
+    intro pos hps hp hfu
+    have hne : pos ≠ src := by omega
+    rw [lastBeforeF_succ]
+    simp only [findPrecedingOrAncestorOrSelf, hne, ne_eq, not_false_eq_true, true_and]
+    split
+    · rfl
+    · split
+      · rfl
+      · cases pos with
+        | zero =>
+          rw [h.2.2.1, h.2.1]
+          cases f <;> simp [findPrecedingOrAncestorOrSelf, lastBeforeF]
+        | succ k =>
+          have hk := ih k (by omega) (by omega) (by omega)
+          cases hs : d.prevSib (k + 1) with
+          | none =>
+            simp only
+            rw [h.parent_eq hp (by omega) hs]
+            exact hk
+          | some s =>
+            simp only
+            rw [h.dive_eq hp hs]
+            exact hk
+
+theorem getTargetNode_any (h : d.WF) (c : NumCfg) (hl : c.level = .any) (src : Nat) (hs : src < d.size) :
+    getTargetNode d c src =
+      if c.countAt src src then some src else lastBeforeF c.fromMatches (c.countAt src) src := by
+  unfold getTargetNode
+  rw [hl]
+  simp only [findPrecedingOrAncestorOrSelf, ne_eq, not_true_eq_false, false_and, if_false]
+  split
+  · rfl
+  · cases src with
+    | zero =>
+      rw [h.2.2.1, h.2.1]
+      simp [findPrecedingOrAncestorOrSelf, lastBeforeF]
+    | succ k =>
+      have hk := findPOAS_below h c (k + 1) (k + 1) k (by omega) (by omega) (by omega)
+      cases hs' : d.prevSib (k + 1) with
       | none =>
-        simp only [hp] at hm
-        split at hm <;> cases hm
-      | some nx =>
-        have hlt := h.parent_lt hpos hp
-        simp only [hp] at hm
-        split at hm
-        · cases hm
-        · split at hm
-          · cases hm; exact hlt
-          · have := ih nx m (by omega) hm
-            omega
-    | some s =>
-      simp only [hs] at hm
-      have hd := h.dive_eq hpos hs
-      have hs0 : 0 < pos := by
-        have := h.prevSib_lt hpos hs
-        omega
-      split at hm
-      · cases hm; omega
-      · have := ih (d.deepestLast d.size s) m (by omega) hm
-        omega
+        simp only
+        rw [h.parent_eq hs (by omega) hs']
+        exact hk
+      | some s =>
+        simp only
+        rw [h.dive_eq hs hs']
+        exact hk
+
+theorem chainLen_cnt (prev : Nat → Option Nat) (f g : Nat → Bool) (B : Nat)
+    (hprev : ∀ n, n < B → g n = true → prev n = lastBeforeF f g n) :
+    ∀ (fuel t : Nat), t < fuel → t < B → g t = true → chainLen prev fuel (some t) = 1 + cntBelow f g t := by
+  intro fuel
+  induction fuel with
+  | zero => intro t h; omega
+  | succ q ih =>
+    intro t ht htB hgt
+    simp only [chainLen, hprev t htB hgt]
+    have hs := lastBeforeF_cnt f g t
+    cases hl : lastBeforeF f g t with
+    | none =>
+      rw [hs.1 hl]
+      cases q <;> simp [chainLen]
+    | some m =>
+      obtain ⟨h1, h2, h3⟩ := hs.2 m hl
+      rw [ih m (by omega) (by omega) h2, h3]
+
+theorem lastBefore_between (f : Nat → Bool) : ∀ (n : Nat),
+    (lastBefore f n = none → ∀ m, m < n → f m = false) ∧
+    (∀ F, lastBefore f n = some F → F < n ∧ f F = true ∧ ∀ m, F < m → m < n → f m = false) := by
+  intro n
+  induction n with
+  | zero => exact ⟨fun _ m hm => by omega, fun F h => by simp [lastBefore] at h⟩
+  | succ k ih =>
+    simp only [lastBefore]
+    by_cases hk : f k = true
+    · simp only [hk, if_true]
+      refine ⟨(by intro h; cases h), ?_⟩
+      intro F hF
+      simp only [Option.some.injEq] at hF
+      subst hF
+      exact ⟨by omega, hk, fun m h1 h2 => by omega⟩
+    · simp only [hk, Bool.false_eq_true, if_false]
+      have hkf : f k = false := by simpa using hk
+      refine ⟨?_, ?_⟩
+      · intro h m hm
+        by_cases hmk : m = k
+        · subst hmk; exact hkf
+        · exact ih.1 h m (by omega)
+      · intro F hF
+        obtain ⟨h1, h2, h3⟩ := ih.2 F hF
+        refine ⟨by omega, h2, ?_⟩
+        intro m hm1 hm2
+        by_cases hmk : m = k
+        · subst hmk; exact hkf
+        · exact h3 m hm1 (by omega)
+
+theorem filter_range_lt (g : Nat → Bool) (lo : Nat) : ∀ (n : Nat), n < lo →
+    ((List.range (n + 1)).filter (fun m => decide (lo ≤ m ∧ g m = true))).length = 0 := by
+  intro n hn
+  have : (List.range (n + 1)).filter (fun m => decide (lo ≤ m ∧ g m = true)) = [] := by
+    apply List.filter_eq_nil_iff.mpr
+    intro a ha
+    simp only [List.mem_range] at ha
+    simp; omega
+  rw [this]; rfl
+
+theorem loBound_some_none (f : Nat → Bool) (cur : Nat) (h : lastBefore f cur = none) : loBound (some f) cur = 0 := by
+  simp [loBound, h]
+
+theorem loBound_some_some (f : Nat → Bool) (cur F : Nat) (h : lastBefore f cur = some F) : loBound (some f) cur = F + 1 := by
+  simp [loBound, h]
+
+
+theorem cntBelow_range (f g : Nat → Bool) (lo : Nat) : ∀ (n : Nat), lo ≤ n →
+    (∀ m, lo ≤ m → m < n → f m = false) → (lo = 0 ∨ f (lo - 1) = true) →
+    cntBelow f g n = ((List.range n).filter (fun m => decide (lo ≤ m ∧ g m = true))).length := by
+  intro n
+  induction n with
+  | zero => intro _ _ _; rfl
+  | succ k ih =>
+    intro hlo hno hbelow
+    rw [cntBelow_succ]
+    by_cases hle : lo ≤ k
+    · have hfk := hno k hle (by omega)
+      simp only [hfk, Bool.false_eq_true, if_false]
+      rw [ih hle (fun m h1 h2 => hno m h1 (by omega)) hbelow]
+      rw [List.range_succ, List.filter_append, List.length_append]
+      have hone : ((List.filter (fun m => decide (lo ≤ m ∧ g m = true)) [k]).length) = (if g k = true then 1 else 0) := by
+        by_cases hg : g k = true
+        · simp [hg, hle]
+        · have hg' : g k = false := by simpa using hg
+          simp [hg']
+      rw [hone]
+      omega
+    · have hl : lo = k + 1 := by omega
+      subst hl
+      rcases hbelow with h | h
+      · omega
+      · have h' : f k = true := h
+        simp only [h', if_true]
+        have : (List.range (k + 1)).filter (fun m => decide (k + 1 ≤ m ∧ g m = true)) = [] := by
+          apply List.filter_eq_nil_iff.mpr
+          intro a ha
+          simp only [List.mem_range] at ha
+          simp; omega
+        rw [this]; rfl
+
+/-- §7.7 `level="any"` in terms of the downward scan (`from` absent = a `from` that matches nothing) -/
+theorem specAny_eq_cnt (c : NumCfg) (g : Nat → Bool) (cur : Nat) :
+    specAny g c.fromP cur = [(if g cur = true then 1 else 0) + cntBelow c.fromMatches g cur] := by
+  obtain ⟨hc1, hc2, hc3⟩ : loBound c.fromP cur ≤ cur ∧
+      (∀ m, loBound c.fromP cur ≤ m → m < cur → c.fromMatches m = false) ∧
+      (loBound c.fromP cur = 0 ∨ c.fromMatches (loBound c.fromP cur - 1) = true) := by
+    cases hf : c.fromP with
+    | none =>
+      refine ⟨by simp [loBound], fun m _ _ => by simp [NumCfg.fromMatches, hf], Or.inl (by simp [loBound])⟩
+    | some f =>
+      have hfm : c.fromMatches = f := by funext n; simp [NumCfg.fromMatches, hf]
+      rw [hfm]
+      have hb := lastBefore_between f cur
+      cases hl : lastBefore f cur with
+      | none =>
+        rw [loBound_some_none f cur hl]
+        exact ⟨by omega, fun m _ h2 => hb.1 hl m h2, Or.inl rfl⟩
+      | some F =>
+        rw [loBound_some_some f cur F hl]
+        obtain ⟨h1, h2, h3⟩ := hb.2 F hl
+        exact ⟨by omega, fun m hm1 hm2 => h3 m (by omega) hm2, Or.inr (by simpa using h2)⟩
+  unfold specAny
+  rw [cntBelow_range c.fromMatches g (loBound c.fromP cur) cur hc1 hc2 hc3]
+  rw [List.range_succ, List.filter_append, List.length_append]
+  have hone : ((List.filter (fun m => decide (loBound c.fromP cur ≤ m ∧ g m = true)) [cur]).length) = (if g cur = true then 1 else 0) := by
+    by_cases hg : g cur = true
+    · simp [hg, hc1]
+    · have hg' : g cur = false := by simpa using hg
+      simp [hg']
+  rw [hone]
+  simp only [List.cons.injEq, and_true]
+  omega
 
 theorem getPreviousNode_outside (hc : d.Closed) (c : NumCfg) (n : Nat) (hn : d.size ≤ n) :
-    (getPreviousNode d c n).toOption = none := by
+    getPreviousNode d c n = none := by
   obtain ⟨h1, h2, _⟩ := hc n hn
   unfold getPreviousNode
-  cases c.level
-  · simp [prevSibling, h2, PrevRes.toOption]
-  · simp [prevSibling, h2, PrevRes.toOption]
-  · simp only [prevAny, h1, h2]
-    cases c.fromP <;> simp [PrevRes.toOption]
+  cases c.level <;> simp [prevSibling, prevAny, h1, h2]
 
 /-- `getPreviousNode` moves strictly backwards in document order on every well-formed document: the
 hypothesis of the history theorem holds for the transcribed navigation. -/
 theorem getPreviousNode_lt (h : d.WF) (c : NumCfg) (n m : Nat) (hn : n < d.size)
-    (hm : (getPreviousNode d c n).toOption = some m) : m < n := by
+    (hm : getPreviousNode d c n = some m) : m < n := by
   unfold getPreviousNode at hm
   cases hl : c.level with
   | any =>
     simp only [hl] at hm
-    cases hr : prevAny d c n (n + 1) n with
-    | nullDeref => simp [hr, PrevRes.toOption] at hm
-    | ret r =>
-      simp only [hr, PrevRes.toOption] at hm
-      subst hm
-      exact prevAny_lt h c n (n + 1) n m hn hr
+    rw [prevAny_eq h c n (n + 1) n hn (by omega)] at hm
+    exact ((lastBeforeF_cnt _ _ n).2 m hm).1
   | single =>
-    simp only [hl, PrevRes.toOption] at hm
+    simp only [hl] at hm
     exact prevSibling_lt h c n (n + 1) n m hn hm
   | multiple =>
-    simp only [hl, PrevRes.toOption] at hm
+    simp only [hl] at hm
     exact prevSibling_lt h c n (n + 1) n m hn hm
 
-end XalanModel.C17
-
-namespace XalanModel.C17
-
-/-! ## `level="any"` without `from` -/
-
-/-- greatest `m ≤ n` with `f m` -/
-def lastLE (f : Nat → Bool) : Nat → Option Nat
-  | 0 => if f 0 then some 0 else none
-  | m + 1 => if f (m + 1) then some (m + 1) else lastLE f m
-
-/-- number of `m ≤ n` with `f m` -/
-def countLE (f : Nat → Bool) : Nat → Nat
-  | 0 => if f 0 then 1 else 0
-  | m + 1 => countLE f m + (if f (m + 1) then 1 else 0)
-
-theorem specAny_eq_countLE (f : Nat → Bool) (cur : Nat) : specAny f none cur = [countLE f cur] := by
-  unfold specAny
-  simp only [loBound, Nat.zero_le, true_and, Bool.decide_eq_true, List.cons.injEq, and_true]
-  induction cur with
-  | zero => simp [countLE, List.range_succ]; split <;> simp_all
-  | succ k ih =>
-    rw [List.range_succ, List.filter_append, List.length_append, ih]
-    simp only [countLE, List.filter_cons, List.filter_nil]
-    split <;> simp
-
-variable {d : Doc}
-
-theorem findPOAS_nofrom (h : d.WF) (c : NumCfg) (hf : c.fromP = none) (src : Nat) :
-    ∀ (fuel pos : Nat), pos < d.size → pos < fuel →
-      findPrecedingOrAncestorOrSelf d c src fuel (some pos) = lastLE (c.countAt src) pos := by
-  intro fuel
-  induction fuel with
-  | zero => intro pos _ h2; omega
-  | succ f ih =>
-    intro pos hp hfu
-    have hfm : c.fromMatches pos = false := by simp [NumCfg.fromMatches, hf]
-    simp only [findPrecedingOrAncestorOrSelf, hfm, Bool.false_eq_true, if_false]
-    cases pos with
-    | zero =>
-      simp only [lastLE]
-      split
-      · rfl
-      · rw [h.2.2.1, h.2.1]
-        cases f <;> simp [findPrecedingOrAncestorOrSelf]
-    | succ k =>
-      simp only [lastLE]
-      split
-      · rfl
-      · cases hs : d.prevSib (k + 1) with
-        | none =>
-          simp only
-          rw [h.parent_eq hp (by omega) hs]
-          exact ih k (by omega) (by omega)
-        | some s =>
-          simp only
-          rw [h.dive_eq hp hs]
-          exact ih k (by omega) (by omega)
-
-theorem prevAny_nofrom (h : d.WF) (c : NumCfg) (hf : c.fromP = none) (src : Nat)
-    (hroot : c.countAt src 0 = false) :
-    ∀ (fuel pos : Nat), pos < d.size → pos < fuel →
-      prevAny d c src fuel pos = .ret (lastBefore (c.countAt src) pos) := by
-  intro fuel
-  induction fuel with
-  | zero => intro pos _ h2; omega
-  | succ f ih =>
-    intro pos hp hfu
-    have hfm : ∀ n, c.fromMatches n = false := by intro n; simp [NumCfg.fromMatches, hf]
-    simp only [prevAny]
-    cases pos with
-    | zero =>
-      rw [h.2.2.1, h.2.1]
-      simp [hf, lastBefore]
-    | succ k =>
-      simp only [lastBefore]
-      cases hs : d.prevSib (k + 1) with
-      | none =>
-        simp only
-        rw [h.parent_eq hp (by omega) hs]
-        simp only [Nat.add_sub_cancel, hfm, Bool.or_false, Doc.isDocNode]
-        cases k with
-        | zero => simp [hroot, lastBefore]
-        | succ j =>
-          have : (decide (j + 1 = 0)) = false := by simp
-          simp only [this, Bool.false_eq_true, if_false]
-          split
-          · rfl
-          · exact ih (j + 1) (by omega) (by omega)
-      | some s =>
-        simp only
-        rw [h.dive_eq hp hs]
-        simp only [Nat.add_sub_cancel]
-        split
-        · rfl
-        · exact ih k (by omega) (by omega)
-
-theorem lastBefore_spec (f : Nat → Bool) : ∀ (n m : Nat), lastBefore f n = some m →
-    m < n ∧ f m = true ∧ (n = 0 ∨ countLE f (n - 1) = countLE f m) := by
-  intro n
-  induction n with
-  | zero => intro m h; simp [lastBefore] at h
-  | succ k ih =>
-    intro m h
-    simp only [lastBefore] at h
-    split at h
-    · rename_i hk
-      cases h
-      exact ⟨by omega, hk, Or.inr (by simp)⟩
-    · rename_i hk
-      obtain ⟨h1, h2, h3⟩ := ih m h
-      refine ⟨by omega, h2, Or.inr ?_⟩
-      simp only [Nat.add_sub_cancel]
-      cases k with
-      | zero => omega
-      | succ j =>
-        rcases h3 with h3 | h3
-        · omega
-        · simp only [Nat.add_sub_cancel] at h3
-          simp only [countLE, hk, Bool.false_eq_true, if_false, Nat.add_zero]
-          exact h3
-
-theorem lastBefore_none (f : Nat → Bool) : ∀ (n : Nat), lastBefore f n = none → n = 0 ∨ countLE f (n - 1) = 0 := by
-  intro n
-  induction n with
-  | zero => intro _; left; rfl
-  | succ k ih =>
-    intro h
-    simp only [lastBefore] at h
-    split at h
-    · cases h
-    · rename_i hk
-      right
-      simp only [Nat.add_sub_cancel]
-      cases k with
-      | zero => simp [countLE, hk]
-      | succ j =>
-        rcases ih h with h3 | h3
-        · omega
-        · simp only [Nat.add_sub_cancel] at h3
-          simp [countLE, hk, h3]
-
-theorem lastLE_spec (f : Nat → Bool) : ∀ (n : Nat),
-    (lastLE f n = none ∧ countLE f n = 0) ∨
-    (∃ t, lastLE f n = some t ∧ t ≤ n ∧ f t = true ∧ countLE f n = countLE f t) := by
-  intro n
-  induction n with
-  | zero =>
-    simp only [lastLE, countLE]
-    split
-    · rename_i h0; right; exact ⟨0, rfl, by omega, h0, by simp [countLE, h0]⟩
-    · left; exact ⟨rfl, rfl⟩
-  | succ k ih =>
-    simp only [lastLE, countLE]
-    split
-    · rename_i hk
-      right; exact ⟨k + 1, rfl, by omega, hk, by simp [countLE, hk]⟩
-    · rename_i hk
-      rcases ih with ⟨h1, h2⟩ | ⟨t, h1, h2, h3, h4⟩
-      · left; exact ⟨h1, by simp [h2]⟩
-      · right; exact ⟨t, h1, by omega, h3, by simp [h4]⟩
-
-/-- chain length of the `level="any"` walk = number of matching nodes up to the target -/
-theorem chainLen_any (prev : Nat → Option Nat) (f : Nat → Bool) (B : Nat)
-    (hprev : ∀ n, n < B → f n = true → prev n = lastBefore f n) :
-    ∀ (fuel t : Nat), t < fuel → t < B → f t = true → chainLen prev fuel (some t) = countLE f t := by
-  intro fuel
-  induction fuel with
-  | zero => intro t h; omega
-  | succ g ih =>
-    intro t ht htB hft
-    simp only [chainLen, hprev t htB hft]
-    cases hl : lastBefore f t with
-    | none =>
-      have := lastBefore_none f t hl
-      cases t with
-      | zero => cases g <;> simp [chainLen, countLE, hft]
-      | succ k =>
-        rcases this with h0 | h0
-        · omega
-        · simp only [Nat.add_sub_cancel] at h0
-          cases g <;> simp [chainLen, countLE, hft, h0]
-    | some m =>
-      obtain ⟨h1, h2, h3⟩ := lastBefore_spec f t m hl
-      rw [ih m (by omega) (by omega) h2]
-      cases t with
-      | zero => omega
-      | succ k =>
-        rcases h3 with h3 | h3
-        · omega
-        · simp only [Nat.add_sub_cancel] at h3
-          simp only [countLE, hft, if_true, h3]
-          omega
-
-
 theorem getPreviousNode_decreases (h : d.WF) (hc : d.Closed) (c : NumCfg) :
-    ∀ n m, (getPreviousNode d c n).toOption = some m → m < n := by
+    ∀ n m, getPreviousNode d c n = some m → m < n := by
   intro n m hm
   by_cases hn : n < d.size
   · exact getPreviousNode_lt h c n m hn hm
   · rw [getPreviousNode_outside hc c n (by omega)] at hm
     cases hm
 
-/-- `level="any"`, no `from`: the counting code (navigation + cache, any history, any oracle) yields the
-number of count-matching nodes up to the current node; nothing is printed for zero. -/
-theorem getCountList_any_nofrom (h : d.WF) (hc : d.Closed) (c : NumCfg) (hl : c.level = .any)
-    (hf : c.fromP = none) (hcons : ∀ a b, c.countAt a b = true → c.countAt b = c.countAt a)
-    (src : Nat) (hs : src < d.size) (hroot : c.countAt src 0 = false)
+/-- `level="any"`, with or without `from`: the counting code (navigation + cache, any history, any oracle)
+yields the §7.7 count; nothing is printed for zero. -/
+theorem getCountList_any (h : d.WF) (hc : d.Closed) (c : NumCfg) (hl : c.level = .any)
+    (hcons : ∀ a b, c.countAt a b = true → c.countAt b = c.countAt a)
+    (src : Nat) (hs : src < d.size)
     (after : Nat → Nat → Bool) (cs : List Counter)
-    (hinv : CountersInv (fun n => (getPreviousNode d c n).toOption) cs) :
-    (getCountList d c after cs src).2 = (specAny (c.countAt src) none src).filter (· ≠ 0) ∧
-    CountersInv (fun n => (getPreviousNode d c n).toOption) (getCountList d c after cs src).1 := by
+    (hinv : CountersInv (getPreviousNode d c) cs) :
+    (getCountList d c after cs src).2 = (specAny (c.countAt src) c.fromP src).filter (· ≠ 0) ∧
+    CountersInv (getPreviousNode d c) (getCountList d c after cs src).1 := by
   have hdec := getPreviousNode_decreases h hc c
   have hcn := countNode_spec (getTargetNode d c) hdec after cs hinv src
-  have htarget : getTargetNode d c src = lastLE (c.countAt src) src := by
-    unfold getTargetNode
-    rw [hl]
-    exact findPOAS_nofrom h c hf src (src + 1) src hs (by omega)
-  rw [specAny_eq_countLE]
+  rw [specAny_eq_cnt c (c.countAt src) src]
   unfold getCountList countTargets
   simp only [hl, countList]
   refine ⟨?_, hcn.2⟩
   rw [hcn.1]
   unfold countSpec
-  rw [htarget]
-  rcases lastLE_spec (c.countAt src) src with ⟨h1, h2⟩ | ⟨t, h1, h2, h3, h4⟩
-  · simp [h1, h2]
-  · simp only [h1, h4]
-    have hprev : ∀ n, n < d.size → c.countAt src n = true →
-        (getPreviousNode d c n).toOption = lastBefore (c.countAt src) n := by
-      intro n hn hfn
-      have he := hcons src n hfn
-      unfold getPreviousNode
-      rw [hl]
+  rw [getTargetNode_any h c hl src hs]
+  have hprev : ∀ n, n < d.size → c.countAt src n = true →
+      getPreviousNode d c n = lastBeforeF c.fromMatches (c.countAt src) n := by
+    intro n hn hgn
+    have he := hcons src n hgn
+    unfold getPreviousNode
+    rw [hl]
+    simp only
+    rw [prevAny_eq h c n (n + 1) n hn (by omega), he]
+  have hchain := chainLen_cnt (getPreviousNode d c) c.fromMatches (c.countAt src) d.size hprev
+  have hs3 := lastBeforeF_cnt c.fromMatches (c.countAt src) src
+  by_cases hg : c.countAt src src = true
+  · simp only [hg, if_true]
+    rw [hchain (src + 1) src (by omega) hs hg]
+  · have hg' : c.countAt src src = false := by simpa using hg
+    simp only [hg', Bool.false_eq_true, if_false, Nat.zero_add]
+    cases hlb : lastBeforeF c.fromMatches (c.countAt src) src with
+    | none => simp [hs3.1 hlb]
+    | some t =>
+      obtain ⟨h1, h2, h3⟩ := hs3.2 t hlb
       simp only
-      rw [prevAny_nofrom h c hf n (by rw [he]; exact hroot) (n + 1) n hn (by omega), he]
-      rfl
-    have := chainLen_any _ (c.countAt src) d.size hprev (t + 1) t (by omega) (by omega) h3
-    rw [this]
+      rw [hchain (t + 1) t (by omega) (by omega) h2, h3]
 
 
 /-! ## `level="single"` / `level="multiple"` -/
+
+
 
 theorem precedingSiblings_fuel (h : d.WF) : ∀ (f1 f2 n : Nat), n < d.size → n < f1 → n < f2 →
     d.precedingSiblings f1 n = d.precedingSiblings f2 n := by
@@ -501,15 +576,15 @@ theorem findAncestor_self (c : NumCfg) (a : Nat) (ha : c.countAt a a = true) :
 theorem countNode_sibling (h : d.WF) (hc : d.Closed) (c : NumCfg) (hl : c.level ≠ .any)
     (g : Nat → Bool) (hg : ∀ n, g n = true → c.countAt n = g)
     (after : Nat → Nat → Bool) (cs : List Counter)
-    (hinv : CountersInv (fun n => (getPreviousNode d c n).toOption) cs)
+    (hinv : CountersInv (getPreviousNode d c) cs)
     (a : Nat) (ha : a < d.size) (hga : g a = true) :
-    (countNode (getTargetNode d c) (fun n => (getPreviousNode d c n).toOption) after cs a).2 = siblingNumber d g a ∧
-    CountersInv (fun n => (getPreviousNode d c n).toOption) (countNode (getTargetNode d c) (fun n => (getPreviousNode d c n).toOption) after cs a).1 := by
+    (countNode (getTargetNode d c) (getPreviousNode d c) after cs a).2 = siblingNumber d g a ∧
+    CountersInv (getPreviousNode d c) (countNode (getTargetNode d c) (getPreviousNode d c) after cs a).1 := by
   have hdec := getPreviousNode_decreases h hc c
   have hcn := countNode_spec (getTargetNode d c) hdec after cs hinv a
   refine ⟨?_, hcn.2⟩
   rw [hcn.1]
-  have hprev : ∀ n, (getPreviousNode d c n).toOption = prevSibling d c n (n + 1) n := by
+  have hprev : ∀ n, getPreviousNode d c n = prevSibling d c n (n + 1) n := by
     intro n
     unfold getPreviousNode
     cases hlv : c.level with
@@ -532,17 +607,17 @@ theorem countNode_sibling (h : d.WF) (hc : d.Closed) (c : NumCfg) (hl : c.level 
     -- the document node has no siblings
     simp [prevSibling, Doc.precedingSiblings, h.2.2.1, chainLen]
   | succ k =>
-    have hk := chainLen_siblings h c g (fun n => (getPreviousNode d c n).toOption) hdec
+    have hk := chainLen_siblings h c g (getPreviousNode d c) hdec
       (fun n _ _ => hprev n) hg (k + 2) (k + 1) (by omega) ha (k + 1) (hg (k + 1) hga) (k + 1) (by omega)
     rw [hk]
 
 theorem countList_siblings (h : d.WF) (hc : d.Closed) (c : NumCfg) (hl : c.level ≠ .any)
     (g : Nat → Bool) (hg : ∀ n, g n = true → c.countAt n = g) (after : Nat → Nat → Bool) :
     ∀ (L : List Nat) (cs : List Counter), (∀ a ∈ L, a < d.size ∧ g a = true) →
-      CountersInv (fun n => (getPreviousNode d c n).toOption) cs →
-      (countList (getTargetNode d c) (fun n => (getPreviousNode d c n).toOption) after cs L).2 = L.map (siblingNumber d g) ∧
-      CountersInv (fun n => (getPreviousNode d c n).toOption)
-        (countList (getTargetNode d c) (fun n => (getPreviousNode d c n).toOption) after cs L).1 := by
+      CountersInv (getPreviousNode d c) cs →
+      (countList (getTargetNode d c) (getPreviousNode d c) after cs L).2 = L.map (siblingNumber d g) ∧
+      CountersInv (getPreviousNode d c)
+        (countList (getTargetNode d c) (getPreviousNode d c) after cs L).1 := by
   intro L
   induction L with
   | nil => intro cs _ hinv; exact ⟨rfl, hinv⟩
@@ -557,50 +632,6 @@ theorem countList_siblings (h : d.WF) (hc : d.Closed) (c : NumCfg) (hl : c.level
 
 /-- `getMatchingAncestors`, `multiple`: the ancestor-or-self nodes up to (excluding) the first one matching
 `from`, filtered by `count` -/
-theorem getMatchingAncestors_multiple (c : NumCfg) (src : Nat) : ∀ (f node : Nat),
-    getMatchingAncestors d c src false (f + 1) (some node) =
-      ((node :: d.ancestors f node).takeWhile (fun a => !c.fromMatches a)).filter (c.countAt src) := by
-  intro f
-  induction f with
-  | zero =>
-    intro node
-    by_cases hfm : c.fromMatches node = true <;> by_cases hcn : c.countAt src node = true <;>
-      simp [getMatchingAncestors, Doc.ancestors, hfm, hcn]
-  | succ f ih =>
-    intro node
-    rw [getMatchingAncestors]
-    cases hp : d.parent node with
-    | none =>
-      by_cases hfm : c.fromMatches node = true <;> by_cases hcn : c.countAt src node = true <;>
-        simp [getMatchingAncestors, Doc.ancestors, hfm, hcn, hp]
-    | some p =>
-      rw [ih p]
-      by_cases hfm : c.fromMatches node = true <;> by_cases hcn : c.countAt src node = true <;>
-        simp [Doc.ancestors, hfm, hcn, hp]
-
-/-- `getMatchingAncestors`, `single`: the first ancestor-or-self matching `count`; `from` is not consulted -/
-theorem getMatchingAncestors_single (c : NumCfg) (src : Nat) : ∀ (f node : Nat),
-    getMatchingAncestors d c src true (f + 1) (some node) =
-      ((node :: d.ancestors f node).find? (c.countAt src)).toList := by
-  intro f
-  induction f with
-  | zero =>
-    intro node
-    by_cases hcn : c.countAt src node = true <;>
-      simp [getMatchingAncestors, Doc.ancestors, hcn]
-  | succ f ih =>
-    intro node
-    rw [getMatchingAncestors]
-    cases hp : d.parent node with
-    | none =>
-      by_cases hcn : c.countAt src node = true <;>
-        simp [getMatchingAncestors, Doc.ancestors, hcn, hp]
-    | some p =>
-      rw [ih p]
-      by_cases hcn : c.countAt src node = true <;>
-        simp [Doc.ancestors, hcn, hp]
-
-
 theorem takeWhile_all {α : Type} (p : α → Bool) : ∀ (l : List α), (∀ a ∈ l, p a = true) → l.takeWhile p = l := by
   intro l
   induction l with
@@ -619,25 +650,46 @@ theorem aos_lt (h : d.WF) (src : Nat) (hs : src < d.size) :
   · have := ancestors_lt h (src + 1) src hs a ha
     omega
 
-/-- `level="multiple"`: the counting code yields the §7.7 list whenever the current node itself does not
-match `from` (in particular whenever `from` is absent). -/
-theorem getCountList_multiple (h : d.WF) (hc : d.Closed) (c : NumCfg) (hl : c.level = .multiple)
-    (hcons : ∀ a b, c.countAt a b = true → c.countAt b = c.countAt a)
-    (src : Nat) (hs : src < d.size) (hself : c.fromMatches src = false)
-    (after : Nat → Nat → Bool) (cs : List Counter)
-    (hinv : CountersInv (fun n => (getPreviousNode d c n).toOption) cs) :
-    (getCountList d c after cs src).2 = specMultiple d (c.countAt src) c.fromP src ∧
-    CountersInv (fun n => (getPreviousNode d c n).toOption) (getCountList d c after cs src).1 := by
-  have hne : c.level ≠ .any := by rw [hl]; decide
-  have hanc : d.ancestors src src = d.ancestors (src + 1) src :=
-    ancestors_fuel h src (src + 1) src hs (by omega) (by omega)
-  have hsearched : (src :: d.ancestors (src + 1) src).takeWhile (fun a => !c.fromMatches a) =
-      searched d c.fromP src := by
+/-- `getMatchingAncestors` above the context node: the ancestor-or-self nodes of `node` up to (excluding) the
+first one matching `from`, filtered by `count` -/
+theorem getMatchingAncestors_above (h : d.WF) (c : NumCfg) (src : Nat) (stop : Bool) : ∀ (f node : Nat),
+    node < src → node < d.size →
+    getMatchingAncestors d c src stop (f + 1) (some node) =
+      if stop then (((node :: d.ancestors f node).takeWhile (fun a => !c.fromMatches a)).find? (c.countAt src)).toList
+      else ((node :: d.ancestors f node).takeWhile (fun a => !c.fromMatches a)).filter (c.countAt src) := by
+  intro f
+  induction f with
+  | zero =>
+    intro node hlt _
+    have hne : node ≠ src := by omega
+    by_cases hfm : c.fromMatches node = true <;> by_cases hcn : c.countAt src node = true <;> cases stop <;>
+      simp [getMatchingAncestors, Doc.ancestors, hfm, hcn, hne]
+  | succ f ih =>
+    intro node hlt hsz
+    have hne : node ≠ src := by omega
+    rw [getMatchingAncestors]
+    cases hp : d.parent node with
+    | none =>
+      by_cases hfm : c.fromMatches node = true <;> by_cases hcn : c.countAt src node = true <;> cases stop <;>
+        simp [getMatchingAncestors, Doc.ancestors, hfm, hcn, hp, hne]
+    | some p =>
+      have hpl := h.parent_lt hsz hp
+      rw [ih p (by omega) (by omega)]
+      by_cases hfm : c.fromMatches node = true <;> by_cases hcn : c.countAt src node = true <;> cases stop <;>
+        simp [Doc.ancestors, hfm, hcn, hp, hne]
+
+/-- `getMatchingAncestors` from the context node (which is never tested against `from`): the nodes of
+§7.7's `searched`, filtered by `count` (first match only for `single`) -/
+theorem getMatchingAncestors_top (h : d.WF) (c : NumCfg) (src : Nat) (hs : src < d.size) (stop : Bool) :
+    getMatchingAncestors d c src stop (src + 1) (some src) =
+      if stop then ((searched d c.fromP src).find? (c.countAt src)).toList
+      else (searched d c.fromP src).filter (c.countAt src) := by
+  have hsearched : searched d c.fromP src = src :: (d.ancestors (src + 1) src).takeWhile (fun a => !c.fromMatches a) := by
     unfold searched
-    simp only [List.takeWhile_cons, hself, Bool.not_false, if_true]
     cases hfp : c.fromP with
     | none =>
       simp only [List.cons.injEq, true_and]
+      symm
       apply takeWhile_all
       intro a _
       simp [NumCfg.fromMatches, hfp]
@@ -646,449 +698,90 @@ theorem getCountList_multiple (h : d.WF) (hc : d.Closed) (c : NumCfg) (hl : c.le
       congr 1
       funext a
       simp [NumCfg.fromMatches, hfp]
+  have hanc : d.ancestors src src = d.ancestors (src + 1) src :=
+    ancestors_fuel h src (src + 1) src hs (by omega) (by omega)
+  rw [hsearched, ← hanc, getMatchingAncestors]
+  cases src with
+  | zero =>
+    rw [h.2.1]
+    by_cases hcn : c.countAt 0 0 = true <;> cases stop <;> simp [getMatchingAncestors, Doc.ancestors, hcn]
+  | succ k =>
+    cases hp : d.parent (k + 1) with
+    | none =>
+      by_cases hcn : c.countAt (k + 1) (k + 1) = true <;> cases stop <;>
+        simp [getMatchingAncestors, Doc.ancestors, hcn, hp]
+    | some p =>
+      have hpl := h.parent_lt hs hp
+      rw [getMatchingAncestors_above h c (k + 1) stop k p hpl (by omega)]
+      by_cases hcn : c.countAt (k + 1) (k + 1) = true <;> cases stop <;>
+        simp [Doc.ancestors, hcn, hp]
+
+theorem searched_lt (h : d.WF) (fromP : Option (Nat → Bool)) (src : Nat) (hs : src < d.size) :
+    ∀ a ∈ searched d fromP src, a < d.size := by
+  intro a ha
+  apply aos_lt h src hs a
+  unfold searched at ha
+  cases fromP with
+  | none => exact ha
+  | some f =>
+    simp only [List.mem_cons] at ha ⊢
+    rcases ha with rfl | ha
+    · left; rfl
+    · right; exact (List.takeWhile_sublist _).subset ha
+
+/-- `level="multiple"`: the counting code yields the §7.7 list, with or without `from`. -/
+theorem getCountList_multiple (h : d.WF) (hc : d.Closed) (c : NumCfg) (hl : c.level = .multiple)
+    (hcons : ∀ a b, c.countAt a b = true → c.countAt b = c.countAt a)
+    (src : Nat) (hs : src < d.size)
+    (after : Nat → Nat → Bool) (cs : List Counter)
+    (hinv : CountersInv (getPreviousNode d c) cs) :
+    (getCountList d c after cs src).2 = specMultiple d (c.countAt src) c.fromP src ∧
+    CountersInv (getPreviousNode d c) (getCountList d c after cs src).1 := by
+  have hne : c.level ≠ .any := by rw [hl]; decide
   have htargets : countTargets d c src = ((searched d c.fromP src).filter (c.countAt src)).reverse := by
     unfold countTargets
     rw [hl]
     simp only
-    rw [getMatchingAncestors_multiple c src src src, hanc, hsearched]
+    rw [getMatchingAncestors_top h c src hs false]
+    rfl
   have hall : ∀ a ∈ ((searched d c.fromP src).filter (c.countAt src)).reverse,
       a < d.size ∧ c.countAt src a = true := by
     intro a ha
     simp only [List.mem_reverse, List.mem_filter] at ha
-    refine ⟨?_, ha.2⟩
-    rw [← hsearched] at ha
-    exact aos_lt h src hs a ((List.takeWhile_sublist _).subset ha.1)
+    exact ⟨searched_lt h c.fromP src hs a ha.1, ha.2⟩
   have := countList_siblings h hc c hne (c.countAt src) (fun n hn => hcons src n hn) after _ cs hall hinv
   unfold getCountList
   rw [htargets]
   simp only [hl]
   exact ⟨this.1, this.2⟩
 
-/-- `level="single"`: the counting code yields the §7.7 list *of the instruction without its `from`
-attribute* — `from` is not consulted at all. -/
+/-- `level="single"`: the counting code yields the §7.7 list, with or without `from`. -/
 theorem getCountList_single (h : d.WF) (hc : d.Closed) (c : NumCfg) (hl : c.level = .single)
     (hcons : ∀ a b, c.countAt a b = true → c.countAt b = c.countAt a)
     (src : Nat) (hs : src < d.size)
     (after : Nat → Nat → Bool) (cs : List Counter)
-    (hinv : CountersInv (fun n => (getPreviousNode d c n).toOption) cs) :
-    (getCountList d c after cs src).2 = specSingle d (c.countAt src) none src ∧
-    CountersInv (fun n => (getPreviousNode d c n).toOption) (getCountList d c after cs src).1 := by
+    (hinv : CountersInv (getPreviousNode d c) cs) :
+    (getCountList d c after cs src).2 = specSingle d (c.countAt src) c.fromP src ∧
+    CountersInv (getPreviousNode d c) (getCountList d c after cs src).1 := by
   have hne : c.level ≠ .any := by rw [hl]; decide
-  have hanc : d.ancestors src src = d.ancestors (src + 1) src :=
-    ancestors_fuel h src (src + 1) src hs (by omega) (by omega)
-  have htargets : countTargets d c src =
-      ((src :: d.ancestors (src + 1) src).find? (c.countAt src)).toList := by
+  have htargets : countTargets d c src = ((searched d c.fromP src).find? (c.countAt src)).toList := by
     unfold countTargets
     rw [hl]
     simp only
-    rw [getMatchingAncestors_single c src src src, hanc]
-    cases ((src :: d.ancestors (src + 1) src).find? (c.countAt src)) <;> simp
-  have hall : ∀ a ∈ ((src :: d.ancestors (src + 1) src).find? (c.countAt src)).toList,
+    rw [getMatchingAncestors_top h c src hs true]
+    cases ((searched d c.fromP src).find? (c.countAt src)) <;> simp
+  have hall : ∀ a ∈ ((searched d c.fromP src).find? (c.countAt src)).toList,
       a < d.size ∧ c.countAt src a = true := by
     intro a ha
     simp only [Option.mem_toList] at ha
-    exact ⟨aos_lt h src hs a (List.mem_of_find?_eq_some ha), by simpa using List.find?_some ha⟩
+    exact ⟨searched_lt h c.fromP src hs a (List.mem_of_find?_eq_some ha), by simpa using List.find?_some ha⟩
   have := countList_siblings h hc c hne (c.countAt src) (fun n hn => hcons src n hn) after _ cs hall hinv
   unfold getCountList
   rw [htargets]
   simp only [hl]
   refine ⟨?_, this.2⟩
   rw [this.1]
-  unfold specSingle searched
-  simp only
-  cases ((src :: d.ancestors (src + 1) src).find? (c.countAt src)) <;> simp
-
-/-! ## `level="any"` with `from` (from-matching nodes have children) -/
-
-
-theorem Doc.WF.prevSib_pos (h : d.WF) {n s : Nat} (hn : n < d.size) (hp : d.prevSib n = some s) : 0 < s := by
-  obtain ⟨_, _, h0, hall, _⟩ := h
-  cases n with
-  | zero => rw [h0] at hp; cases hp
-  | succ k =>
-    have := (hall (k + 1) hn (by omega)).2.2.2
-    rw [hp] at this
-    have h2 : 0 < s ∧ s < k + 1 := by simpa using this
-    exact h2.1
-
-theorem Doc.WF.lastChild_gt (h : d.WF) {n c : Nat} (hn : n < d.size) (hc : d.lastChild n = some c) : n < c ∧ c < d.size := by
-  have := h.2.2.2.2 n hn
-  rw [hc] at this
-  simpa using this
-
-theorem deepestLast_ge (h : d.WF) : ∀ (f s : Nat), s < d.size → s ≤ d.deepestLast f s ∧ d.deepestLast f s < d.size := by
-  intro f
-  induction f with
-  | zero => intro s hs; simp [Doc.deepestLast, hs]
-  | succ f ih =>
-    intro s hs
-    simp only [Doc.deepestLast]
-    cases hc : d.lastChild s with
-    | none => simp [hs]
-    | some c =>
-      have := h.lastChild_gt hs hc
-      have := ih c this.2
-      simp only
-      omega
-
-theorem deepestLast_leaf (h : d.WF) : ∀ (f s : Nat), s < d.size → d.size ≤ s + f →
-    d.lastChild (d.deepestLast f s) = none := by
-  intro f
-  induction f with
-  | zero => intro s hs hf; omega
-  | succ f ih =>
-    intro s hs hf
-    simp only [Doc.deepestLast]
-    cases hc : d.lastChild s with
-    | none => simpa using hc
-    | some c =>
-      have := h.lastChild_gt hs hc
-      exact ih c this.2 (by omega)
-
-/-- `findPrecedingOrAncestorOrSelf` with `from` -/
-def lastLEF (f g : Nat → Bool) : Nat → Option Nat
-  | 0 => if f 0 then none else if g 0 then some 0 else none
-  | m + 1 => if f (m + 1) then none else if g (m + 1) then some (m + 1) else lastLEF f g m
-
-/-- `getPreviousNode` (`any`) with `from`, when no childless node matches `from` -/
-def lastBeforeF (f g : Nat → Bool) : Nat → Option Nat
-  | 0 => none
-  | m + 1 => if f m then none else if g m then some m else lastBeforeF f g m
-
-/-- scanning down from `n`: stop at the first `f`, count the `g` -/
-def cntDown (f g : Nat → Bool) : Nat → Nat
-  | 0 => if f 0 then 0 else if g 0 then 1 else 0
-  | m + 1 => if f (m + 1) then 0 else (if g (m + 1) then 1 else 0) + cntDown f g m
-
-theorem findPOAS_from (h : d.WF) (c : NumCfg) (src : Nat) :
-    ∀ (fuel pos : Nat), pos < d.size → pos < fuel →
-      findPrecedingOrAncestorOrSelf d c src fuel (some pos) = lastLEF c.fromMatches (c.countAt src) pos := by
-  intro fuel
-  induction fuel with
-  | zero => intro pos _ h2; omega
-  | succ f ih =>
-    intro pos hp hfu
-    simp only [findPrecedingOrAncestorOrSelf]
-    cases pos with
-    | zero =>
-      simp only [lastLEF]
-      split
-      · rfl
-      · split
-        · rfl
-        · rw [h.2.2.1, h.2.1]
-          cases f <;> simp [findPrecedingOrAncestorOrSelf]
-    | succ k =>
-      simp only [lastLEF]
-      split
-      · rfl
-      · split
-        · rfl
-        · cases hs : d.prevSib (k + 1) with
-          | none =>
-            simp only
-            rw [h.parent_eq hp (by omega) hs]
-            exact ih k (by omega) (by omega)
-          | some s =>
-            simp only
-            rw [h.dive_eq hp hs]
-            exact ih k (by omega) (by omega)
-
-theorem prevAny_from (h : d.WF) (c : NumCfg) (src : Nat) (hroot : c.countAt src 0 = false)
-    (hleaf : ∀ m, m < d.size → c.fromMatches m = true → (d.lastChild m).isSome = true) :
-    ∀ (fuel pos : Nat), pos < d.size → pos < fuel → 1 ≤ pos →
-      prevAny d c src fuel pos = .ret (lastBeforeF c.fromMatches (c.countAt src) pos) := by
-  intro fuel
-  induction fuel with
-  | zero => intro pos _ h2; omega
-  | succ f ih =>
-    intro pos hp hfu h1
-    simp only [prevAny]
-    obtain ⟨k, rfl⟩ : ∃ k, pos = k + 1 := ⟨pos - 1, by omega⟩
-    simp only [lastBeforeF]
-    cases hs : d.prevSib (k + 1) with
-    | none =>
-      simp only
-      rw [h.parent_eq hp (by omega) hs]
-      simp only [Nat.add_sub_cancel, Doc.isDocNode]
-      cases k with
-      | zero =>
-        simp only [decide_true, Bool.true_or, if_true]
-        split
-        · rfl
-        · simp [hroot, lastBeforeF]
-      | succ j =>
-        have : (decide (j + 1 = 0)) = false := by simp
-        simp only [this, Bool.false_or]
-        split
-        · rfl
-        · split
-          · rfl
-          · exact ih (j + 1) (by omega) (by omega) (by omega)
-    | some s =>
-      simp only
-      have hsl := h.prevSib_lt hp hs
-      have hsp := h.prevSib_pos hp hs
-      have hdive := h.dive_eq hp hs
-      have hge := deepestLast_ge h d.size s (by omega)
-      have hleafk : d.lastChild (d.deepestLast d.size s) = none := deepestLast_leaf h d.size s (by omega) (by omega)
-      rw [hdive] at hleafk hge ⊢
-      simp only [Nat.add_sub_cancel] at hleafk hge ⊢
-      have hfk : c.fromMatches k = false := by
-        cases hfm : c.fromMatches k with
-        | false => rfl
-        | true =>
-          have := hleaf k (by omega) hfm
-          rw [hleafk] at this
-          cases this
-      simp only [hfk, Bool.false_eq_true, if_false]
-      split
-      · rfl
-      · exact ih k (by omega) (by omega) (by omega)
-
-theorem lastLEF_spec (f g : Nat → Bool) : ∀ (n : Nat),
-    (lastLEF f g n = none ∧ cntDown f g n = 0) ∨
-    (∃ t, lastLEF f g n = some t ∧ t ≤ n ∧ g t = true ∧ f t = false ∧ cntDown f g n = cntDown f g t) := by
-  intro n
-  induction n with
-  | zero =>
-    simp only [lastLEF, cntDown]
-    by_cases hf : f 0 = true
-    · left; simp [hf]
-    · by_cases hg : g 0 = true
-      · right; exact ⟨0, by simp [hf, hg], by omega, hg, by simpa using hf, rfl⟩
-      · left; simp [hf, hg]
-  | succ k ih =>
-    simp only [lastLEF, cntDown]
-    by_cases hf : f (k + 1) = true
-    · left; simp [hf]
-    · by_cases hg : g (k + 1) = true
-      · right; exact ⟨k + 1, by simp [hf, hg], by omega, hg, by simpa using hf, rfl⟩
-      · rcases ih with ⟨h1, h2⟩ | ⟨t, h1, h2, h3, h4, h5⟩
-        · left; simp [hf, hg, h1, h2]
-        · right; exact ⟨t, by simp [hf, hg, h1], by omega, h3, h4, by simp [hf, hg, h5]⟩
-
-theorem lastBeforeF_succ (f g : Nat → Bool) (m : Nat) :
-    lastBeforeF f g (m + 1) = if f m then none else if g m then some m else lastBeforeF f g m := rfl
-
-theorem cntDown_succ (f g : Nat → Bool) (m : Nat) :
-    cntDown f g (m + 1) = if f (m + 1) then 0 else (if g (m + 1) then 1 else 0) + cntDown f g m := rfl
-
-theorem lastBeforeF_spec (f g : Nat → Bool) : ∀ (t : Nat),
-    (lastBeforeF f g (t + 1) = none → cntDown f g t = 0) ∧
-    (∀ m, lastBeforeF f g (t + 1) = some m → m ≤ t ∧ g m = true ∧ f m = false ∧ cntDown f g t = cntDown f g m) := by
-  intro t
-  induction t with
-  | zero =>
-    rw [lastBeforeF_succ]
-    by_cases hf : f 0 = true
-    · simp [hf, cntDown]
-    · by_cases hg : g 0 = true
-      · simp [hf, hg]
-      · simp [hf, hg, cntDown, lastBeforeF]
-  | succ k ih =>
-    rw [lastBeforeF_succ, cntDown_succ]
-    by_cases hf : f (k + 1) = true
-    · simp [hf]
-    · by_cases hg : g (k + 1) = true
-      · simp only [hf, hg, Bool.false_eq_true, if_false, if_true]
-        refine ⟨(by intro h; cases h), ?_⟩
-        intro m hm
-        simp only [Option.some.injEq] at hm
-        subst hm
-        exact ⟨by omega, hg, by simpa using hf, by rw [cntDown_succ]; simp [hf, hg]⟩
-      · simp only [hf, hg, Bool.false_eq_true, if_false, Nat.zero_add]
-        refine ⟨ih.1, ?_⟩
-        intro m hm
-        have := ih.2 m hm
-        exact ⟨by omega, this.2.1, this.2.2.1, this.2.2.2⟩
-
-theorem chainLen_anyF (prev : Nat → Option Nat) (f g : Nat → Bool) (B : Nat)
-    (hprev : ∀ n, n < B → 1 ≤ n → g n = true → prev n = lastBeforeF f g n) (hroot : g 0 = false) :
-    ∀ (fuel t : Nat), t < fuel → t < B → g t = true → f t = false →
-      chainLen prev fuel (some t) = cntDown f g t := by
-  intro fuel
-  induction fuel with
-  | zero => intro t h; omega
-  | succ q ih =>
-    intro t ht htB hgt hft
-    cases t with
-    | zero => rw [hroot] at hgt; cases hgt
-    | succ k =>
-      simp only [chainLen, hprev (k + 1) htB (by omega) hgt]
-      have hs := lastBeforeF_spec f g k
-      rw [cntDown_succ]
-      simp only [hft, hgt, Bool.false_eq_true, if_false, if_true]
-      cases hl : lastBeforeF f g (k + 1) with
-      | none =>
-        have := hs.1 hl
-        cases q <;> simp [chainLen, this]
-      | some m =>
-        have := hs.2 m hl
-        rw [ih m (by omega) (by omega) this.2.1 this.2.2.1, this.2.2.2]
-
-
-theorem lastBefore_between (f : Nat → Bool) : ∀ (n : Nat),
-    (lastBefore f n = none → ∀ m, m < n → f m = false) ∧
-    (∀ F, lastBefore f n = some F → F < n ∧ f F = true ∧ ∀ m, F < m → m < n → f m = false) := by
-  intro n
-  induction n with
-  | zero => exact ⟨fun _ m hm => by omega, fun F h => by simp [lastBefore] at h⟩
-  | succ k ih =>
-    simp only [lastBefore]
-    by_cases hk : f k = true
-    · simp only [hk, if_true]
-      refine ⟨(by intro h; cases h), ?_⟩
-      intro F hF
-      simp only [Option.some.injEq] at hF
-      subst hF
-      exact ⟨by omega, hk, fun m h1 h2 => by omega⟩
-    · simp only [hk, Bool.false_eq_true, if_false]
-      have hkf : f k = false := by simpa using hk
-      refine ⟨?_, ?_⟩
-      · intro h m hm
-        by_cases hmk : m = k
-        · subst hmk; exact hkf
-        · exact ih.1 h m (by omega)
-      · intro F hF
-        obtain ⟨h1, h2, h3⟩ := ih.2 F hF
-        refine ⟨by omega, h2, ?_⟩
-        intro m hm1 hm2
-        by_cases hmk : m = k
-        · subst hmk; exact hkf
-        · exact h3 m hm1 (by omega)
-
-theorem filter_range_lt (g : Nat → Bool) (lo : Nat) : ∀ (n : Nat), n < lo →
-    ((List.range (n + 1)).filter (fun m => decide (lo ≤ m ∧ g m = true))).length = 0 := by
-  intro n hn
-  have : (List.range (n + 1)).filter (fun m => decide (lo ≤ m ∧ g m = true)) = [] := by
-    apply List.filter_eq_nil_iff.mpr
-    intro a ha
-    simp only [List.mem_range] at ha
-    simp; omega
-  rw [this]; rfl
-
-theorem cntDown_range (f g : Nat → Bool) (lo : Nat) : ∀ (n : Nat), lo ≤ n + 1 →
-    (∀ m, lo ≤ m → m ≤ n → f m = false) → (lo = 0 ∨ f (lo - 1) = true) →
-    cntDown f g n = ((List.range (n + 1)).filter (fun m => decide (lo ≤ m ∧ g m = true))).length := by
-  intro n
-  induction n with
-  | zero =>
-    intro hlo hno hbelow
-    simp only [cntDown]
-    by_cases hl0 : lo = 0
-    · subst hl0
-      have := hno 0 (by omega) (by omega)
-      simp only [this, Bool.false_eq_true, if_false]
-      by_cases hg : g 0 = true <;> simp [List.range_succ, hg]
-    · have hl1 : lo = 1 := by omega
-      subst hl1
-      rcases hbelow with h | h
-      · omega
-      · simp only [Nat.sub_self] at h
-        simp [h, List.range_succ]
-  | succ k ih =>
-    intro hlo hno hbelow
-    rw [cntDown_succ]
-    by_cases hle : lo ≤ k + 1
-    · have hfk := hno (k + 1) hle (by omega)
-      simp only [hfk, Bool.false_eq_true, if_false]
-      rw [ih hle (fun m h1 h2 => hno m h1 (by omega)) hbelow]
-      rw [List.range_succ (n := k + 1), List.filter_append, List.length_append]
-      have hone : ((List.filter (fun m => decide (lo ≤ m ∧ g m = true)) [k + 1]).length) = (if g (k + 1) = true then 1 else 0) := by
-        by_cases hg : g (k + 1) = true
-        · simp [hg, hle]
-        · have hg' : g (k + 1) = false := by simpa using hg
-          simp [hg']
-      rw [hone]
-      omega
-    · have hl : lo = k + 2 := by omega
-      subst hl
-      rcases hbelow with h | h
-      · omega
-      · have h' : f (k + 1) = true := h
-        simp only [h', if_true]
-        exact (filter_range_lt g (k + 2) (k + 1) (by omega)).symm
-
-theorem loBound_some_none (f : Nat → Bool) (cur : Nat) (h : lastBefore f cur = none) : loBound (some f) cur = 0 := by
-  simp [loBound, h]
-
-theorem loBound_some_some (f : Nat → Bool) (cur F : Nat) (h : lastBefore f cur = some F) : loBound (some f) cur = F + 1 := by
-  simp [loBound, h]
-
-theorem specAny_eq_cntDown (f g : Nat → Bool) (cur : Nat) (hself : f cur = false) :
-    specAny g (some f) cur = [cntDown f g cur] := by
-  have hb := lastBefore_between f cur
-  obtain ⟨hc1, hc2, hc3⟩ : loBound (some f) cur ≤ cur + 1 ∧
-      (∀ m, loBound (some f) cur ≤ m → m ≤ cur → f m = false) ∧
-      (loBound (some f) cur = 0 ∨ f (loBound (some f) cur - 1) = true) := by
-    cases hl : lastBefore f cur with
-    | none =>
-      rw [loBound_some_none f cur hl]
-      refine ⟨by omega, ?_, Or.inl rfl⟩
-      intro m _ h2
-      by_cases hmc : m = cur
-      · subst hmc; exact hself
-      · exact hb.1 hl m (by omega)
-    | some F =>
-      rw [loBound_some_some f cur F hl]
-      obtain ⟨h1, h2, h3⟩ := hb.2 F hl
-      refine ⟨by omega, ?_, Or.inr (by simpa using h2)⟩
-      intro m hm1 hm2
-      by_cases hmc : m = cur
-      · subst hmc; exact hself
-      · exact h3 m (by omega) (by omega)
-  unfold specAny
-  rw [cntDown_range f g (loBound (some f) cur) cur hc1 hc2 hc3]
-
-/-- `level="any"` **with** `from`, when only nodes that have children match `from` and the current node does
-not: the counting code yields the §7.7 count (zero prints nothing). -/
-theorem getCountList_any_from (h : d.WF) (hc : d.Closed) (c : NumCfg) (hl : c.level = .any)
-    (f : Nat → Bool) (hf : c.fromP = some f)
-    (hcons : ∀ a b, c.countAt a b = true → c.countAt b = c.countAt a)
-    (src : Nat) (hs : src < d.size) (hroot : c.countAt src 0 = false)
-    (hleaf : ∀ m, m < d.size → f m = true → (d.lastChild m).isSome = true) (hself : f src = false)
-    (after : Nat → Nat → Bool) (cs : List Counter)
-    (hinv : CountersInv (fun n => (getPreviousNode d c n).toOption) cs) :
-    (getCountList d c after cs src).2 = (specAny (c.countAt src) (some f) src).filter (· ≠ 0) ∧
-    CountersInv (fun n => (getPreviousNode d c n).toOption) (getCountList d c after cs src).1 := by
-  have hfm : c.fromMatches = f := by funext n; simp [NumCfg.fromMatches, hf]
-  have hdec := getPreviousNode_decreases h hc c
-  have hcn := countNode_spec (getTargetNode d c) hdec after cs hinv src
-  have htarget : getTargetNode d c src = lastLEF f (c.countAt src) src := by
-    unfold getTargetNode
-    rw [hl]
-    simp only
-    rw [findPOAS_from h c src (src + 1) src hs (by omega), hfm]
-  rw [specAny_eq_cntDown f (c.countAt src) src hself]
-  unfold getCountList countTargets
-  simp only [hl, countList]
-  refine ⟨?_, hcn.2⟩
-  rw [hcn.1]
-  unfold countSpec
-  rw [htarget]
-  rcases lastLEF_spec f (c.countAt src) src with ⟨h1, h2⟩ | ⟨t, h1, h2, h3, h4, h5⟩
-  · simp [h1, h2]
-  · simp only [h1, h5]
-    have hprev : ∀ n, n < d.size → 1 ≤ n → c.countAt src n = true →
-        (getPreviousNode d c n).toOption = lastBeforeF f (c.countAt src) n := by
-      intro n hn hn1 hgn
-      have he := hcons src n hgn
-      unfold getPreviousNode
-      rw [hl]
-      simp only
-      rw [prevAny_from h c n (by rw [he]; exact hroot) (by rw [hfm]; exact hleaf) (n + 1) n hn (by omega) hn1, he, hfm]
-      rfl
-    rw [chainLen_anyF _ f (c.countAt src) d.size hprev hroot (t + 1) t (by omega) (by omega) h3 h4]
-
-
-
-/-- when no proper ancestor matches `from`, §7.7 `single` does not depend on `from` -/
-theorem specSingle_from_irrelevant (d : Doc) (g f : Nat → Bool) (cur : Nat)
-    (h : ∀ a ∈ d.ancestors (cur + 1) cur, f a = false) :
-    specSingle d g (some f) cur = specSingle d g none cur := by
-  unfold specSingle searched
-  simp only
-  rw [takeWhile_all (fun a => decide ¬ f a = true) _ (fun a ha => by simp [h a ha])]
+  unfold specSingle
+  cases ((searched d c.fromP src).find? (c.countAt src)) <;> simp
 
 end XalanModel.C17
